@@ -304,6 +304,9 @@ class CouplingGraph(Collection[tuple[int, int]]):
         return list(self._adj[qudit])
 
     def __contains__(self, __o: object) -> bool:
+        if isinstance(__o, tuple) and len(__o) == 2 and __o[0] > __o[1]:
+            # The graph is undirected; edges are stored as sorted pairs
+            __o = (__o[1], __o[0])
         return self._edges.__contains__(__o)
 
     def __eq__(self, __o: object) -> bool:
